@@ -64,9 +64,11 @@ BLIND = {  # did the owning check exist, unchanged, before the change was seen?
     'b11-C11': 'yes - caught (C11.R5 add table: scope order)',
     'b11-C17': 'yes - caught (C17.R2 / C17.R12 parameter laws for all-negative ranges; C04.R7)',
     'b12-C02': 'yes - C01.R3 caught it; the owning check C02 reported only by accident (stand-in tensors had no shapeSignature: AttributeError). Stand-ins now have every schema field with its default; C02.R7 / C02.R9 compare the shapes of inserted and original tensors on graphs with dynamic dimensions',
+    'b12-C03': 'yes - reported, but only by the anchor test of C03.R6 ("cannot find the single branch that selects weight_tensor_config"), i.e. by not recognising the code. C03.R6 is now a table over the registry: a probe in place of the parameter computation records which configuration every operand is quantized with, with collected and with missing statistics',
     'b12-C12': 'yes - caught (C11.R6 load == documented adds in list order; C12.R7 session round trip)',
     'b12-C14': 'yes - caught (C14.R1 / C09.R1 effect analysis: caller-owned statistics rewritten in place)',
     'b12-C18': 'yes - caught, but by a text test of C18.R3 (skip condition mentions np.object_); replaced by the dtype-aware validation simulation C18.R9 (bool / int / float16 / string tensors)',
+    'b12-C19': 'yes - reported, but only through "not decided" outcomes (np.full / searchsorted were not modelled) and representation rules that a CORRECT array version trips as well. The array model got general indexing, stores and searchsorted; the op-id map rules (C01.R8 = C19.R2) now run the class\'s own create / update / query functions and compare positions; subgraphs of 1 and 5 operators stand side by side in C19.R11 / R13. The seeded change is reported by C19.R11, C19.R13, C01.R15; the correct array twin is silent',
     'b3-C18': 'yes (written minutes before) - MISSED, then fixed', 'b3-C19': 'yes - caught by C10.R2 only, C19.R8 added', 'b3-C01': 'yes - MISSED (declared blind spot), then fixed',
 }
 
